@@ -106,7 +106,62 @@ PROGRAM_SETS = [
     ("list", ["int(<d>) >= 1", "len(*<start>.<item>) <= 2"]),                               # first one raises on 'x'
     ("list", ["len(*<start>.<item>) <= 2", "int(<d>) == 1", "len(*<item>..<d>) >= 2"]),     # middle one raises on 'x'
     ("list", ["exists <e> in <start>..<d>: int(<e>) == 2", "int(<item>.<d>) <= 1"]),
+    ("list", ["int(<d>) in (1, 2)"]),                                                        # expression constraint, raises for SOME matches
+    ("list", ["12 % int(<d>) == 0 or False", "len(*<start>.<item>) <= 2"]),
 ]
+
+# (C) end-to-end: specs run through the real search; every emitted OUTPUT STRING is judged by a string-level oracle that shares
+# nothing with the search (computed repetition count, `where` constraint)
+SEARCH_CASES = {
+    "counted_items": ('<start> ::= <n> ":" <item>{int(<n>)} ";"\n<n> ::= "1" | "2" | "3" | "4" | "5"\n<item> ::= <c> <c>\n<c> ::= "a" | "b" | "c" | "d"\n'
+                      'where str(<start>).count("a") >= 3\n',
+                      lambda o: o.endswith(";") and ":" in o and len(o.split(":", 1)[1][:-1]) == 2 * int(o.split(":", 1)[0]) and o.count("a") >= 3),
+    "fields_divide": ('def divides12(f):\n    return 12 % int(str(f)) == 0\n\n<start> ::= <f> "," <f> "," <f>\n<f> ::= "0" | "2" | "3" | "4" | "5"\nwhere divides12(<f>)\n',
+                      lambda o: all(x != "0" and 12 % int(x) == 0 for x in o.split(","))),
+    "len_prefixed": ('<start> ::= <len> <payload>\n<len> ::= r"[0-9]"\n<payload> ::= r"[a-z]"*\nwhere int(<len>) == len(str(<payload>))\nwhere str(<payload>).count("z") >= 1\n',
+                     lambda o: o[0].isdigit() and int(o[0]) == len(o) - 1 and o.count("z") >= 1),
+}
+
+
+def part_c(pid, tier, seed):
+    if pid != "C02":
+        return 0, set(), []
+    import random
+    from fandango import Fandango
+    from bounded.c04_c05 import with_budget
+    try:
+        import fandango.language.grammar.nodes as nodes
+        default_cap = nodes.MAX_REPETITIONS
+    except Exception:
+        nodes, default_cap = None, None
+    rnd = random.Random(seed)
+    evaluations, distinct, bad = 0, set(), []
+    seen = set()
+    for name, (text, oracle) in SEARCH_CASES.items():
+        for k in range(2 if tier == "quick" else 8):
+            sd = rnd.randint(0, 10 ** 6)
+
+            def go():
+                if nodes is not None:
+                    nodes.MAX_REPETITIONS = default_cap       # earlier runs of this process leave the module global raised (C18 finding)
+                fan = Fandango(text, use_stdlib=False, use_cache=False, logging_level=logging.CRITICAL)
+                return [str(t) for t in fan.fuzz(desired_solutions=30, max_generations=12, population_size=20, random_seed=sd)]
+
+            outs, to = with_budget(go, 180)
+            if to or outs is None:
+                continue
+            for o in outs:
+                evaluations += 1
+                distinct.add((name, o))
+                try:
+                    ok = bool(oracle(o))
+                except Exception:
+                    ok = False
+                if not ok and name not in seen:
+                    seen.add(name)
+                    bad.append((name, text, sd, o))
+    return evaluations, distinct, bad
+
 
 
 def all_refs():
@@ -175,6 +230,7 @@ def run(tier="quick", seed=0, pid="C02"):
     with open(os.devnull, "w") as null, contextlib.redirect_stderr(null):     # swallowed exceptions are printed to stderr by the repo
         ea, bad_a = part_a(pid, tier)
         eb, distinct, bad_b, samples, undecided = part_b(pid, tier)
+        ec, distinct_c, bad_c = part_c(pid, tier, seed)
     violations = []
     for kind, combo, f in bad_a:
         violations.append({
@@ -186,12 +242,19 @@ def run(tier="quick", seed=0, pid="C02"):
             "name": "bounded:emitted_iff_all_hard_constraints_hold", "witness": f"constraints={'&'.join(p.replace(' ', '') for p in progs)};kind={kind}",
             "detail": f"{kind}: constraints {progs!r} on input {w!r} (fitness {fit!r})",
             "script": replay_script("b", pid, [gname, progs, w])})
+    for name, text, sd, o in bad_c:
+        violations.append({
+            "name": "bounded:emitted_output_satisfies_spec", "witness": f"search={name};kind=emitted_output_violates_the_spec",
+            "detail": f"search case {name}, seed {sd}: emitted output {o!r} violates the spec (string-level oracle)",
+            "script": replay_script("c", pid, [name, sd])})
     return {
-        "evaluations": ea + eb, "distinct_nontrivial": (ea - 1) + len(distinct),
+        "evaluations": ea + eb + ec, "distinct_nontrivial": (ea - 1) + len(distinct) + len(distinct_c),
         "rule": (f"{pid}: (A) every list of up to {4 if tier == 'quick' else 6} stub constraints from 5 behaviours (satisfied 1/1, 3/3; unsatisfied 0/1, 3/4; "
                  "raising) through the real Evaluator._evaluate_constraints; (B) 6 sets of 2-3 hard constraints x the words of two small "
                  "grammars through the real spec reader and Evaluator.evaluate_individual against the reference evaluator of bounded/c07; "
-                 "distinct = distinct non-empty stub lists + distinct (constraint set, word)"),
+                 "(C, C02 only) 3 specs (computed repetition + where, helper that raises for one value, length prefix) through the real "
+                 "Fandango.fuzz, 2 (8) seeds x 30 solutions, every emitted output judged by a string-level oracle; "
+                 "distinct = distinct non-empty stub lists + distinct (constraint set, word) + distinct (search case, output)"),
         "bound": "lists of at most 4 (6 thorough) stubs; two grammars, words up to 9 atoms", "samples": samples,
         "violations": violations, "undecided": undecided, "wall_s": round(time.time() - t0, 1),
     }
@@ -227,6 +290,27 @@ def replay(part, pid, data):
         want_one = all(k == "sat" for k, _ in data)
         print(f"stub constraints {stubs!r}: class fitness {f!r}; 1.0 expected: {want_one}")
         if (f == 1.0) != want_one or not (0.0 <= f <= 1.0):
+            print("VIOLATION reproduced")
+            return 1
+        print("not reproduced")
+        return 0
+    if part == "c":
+        name, sd = data
+        text, oracle = SEARCH_CASES[name]
+        from fandango import Fandango
+        fan = Fandango(text, use_stdlib=False, use_cache=False, logging_level=logging.CRITICAL)
+        outs = [str(t) for t in fan.fuzz(desired_solutions=30, max_generations=12, population_size=20, random_seed=sd)]
+        bad = []
+        for o in outs:
+            try:
+                ok = bool(oracle(o))
+            except Exception:
+                ok = False
+            if not ok:
+                bad.append(o)
+        print("spec:\n" + text)
+        print(f"{len(outs)} emitted outputs, violating the spec: {bad[:8]}")
+        if bad:
             print("VIOLATION reproduced")
             return 1
         print("not reproduced")
